@@ -16,6 +16,12 @@ every interleaving, any number of threads / sessions / items):
     consumer always terminates (`state_close_consumer_exits`); so does Server.Close on serveErrCh
     (214c4ac, `server_errch_close_classified`). `queue_close_leak_witness` stays as the statement about
     plain Close, which no teardown path uses any more.
+  * the goroutines a session starts per command / per IDLE / per connection (Model/ConcCmd.lean): the
+    command goroutine always finishes because a failed write keeps draining its response channel
+    (`command_drained_completes`; without the drain it blocks for ever, `command_undrained_stuck`), the
+    per-IDLE forwarder exits on every way out of IDLE because `endIdle` is deferred
+    (`idle_forwarder_exits`; `idle_not_deferred_leak_witness`); both shapes, and the list of goroutine
+    starts, are regenerated facts (`session_goroutines_classified`).
 What is NOT decided by theorem (search only, see checklib/props/C19.py): data races on fields that
 no lock guards (a State's snapshot read from a foreign goroutine, finding #13b), liveness that
 depends on the Go scheduler, blocking on channels / WaitGroups while holding a lock other than in
@@ -26,6 +32,8 @@ import GluonModel.Lemmas.ConcLocks
 import GluonModel.Lemmas.ConcTeardown
 import GluonModel.Generated.Facts.Locks
 import GluonModel.Generated.Facts.CloseVariant
+import GluonModel.Lemmas.ConcCmd
+import GluonModel.Generated.Facts.GoStop
 
 namespace Gluon.C19
 open Gluon.Conc
@@ -358,6 +366,97 @@ theorem teardown_stuck_without_observe_witness :
   | done h => rw [h1] at h; cases h
   | step h _ => obtain ⟨st, hm, hen⟩ := h; rw [hstuck st hm] at hen; cases hen
 
+/-! ## goroutines per command, per IDLE, per connection -/
+
+/-- A command always runs to its end, whatever the client does. Regenerated facts: in `Session.serve`
+the failed-`Send` branch of `for res := range respCh` starts a goroutine that keeps receiving until the
+channel is closed, the command goroutine closes the channel by `defer`, the channel has 8 slots.
+Model: for every channel capacity > 0, every number of responses, every interleaving of producers,
+command goroutine and receiver, with a write failing at any point (any step sequence): from the state
+reached there is a continuation of at most `measure` steps after which the command goroutine has finished
+(`handleWG.Wait()` in `Session.Serve` returns, so `Session.done` releases the state and `RemoveUser` /
+`Close` are not held up) and the receiver has gone too. Every enabled step uses up measure
+(`cmd_progress`), so this is every maximal run, not a lucky one. -/
+theorem command_drained_completes :
+    Facts.sendFailDrains = some true ∧ Facts.commandClosesRespCh = some true ∧ Facts.respChCap = some 8 ∧
+    ∀ (cap n : Nat) (steps : List CmdStep), 0 < cap →
+      let s := (CmdState.init cap n true).run steps
+      (¬ s.done → ∃ st, (s.step st).measure < s.measure) ∧
+      ∃ more : List CmdStep, more.length ≤ s.measure ∧ (s.run more).done := by
+  refine ⟨by decide, by decide, by decide, ?_⟩
+  intro cap n steps hcap s
+  have inv : CmdInv s := cmdinv_run _ steps (cmdinv_init cap n hcap)
+  exact ⟨cmd_progress s inv, cmd_finishes_aux s.measure s inv (Nat.le_refl _)⟩
+
+/-- Why the drain is needed (what a `cancel()` in its place does not give, the producers' sends being
+plain `ch <- response`): once nothing receives and more responses are outstanding than the channel
+takes, the command goroutine never finishes, on any continuation - `Session.Serve` stays in
+`handleWG.Wait()`, the state is never released, `RemoveUser` / `Close` never return. -/
+theorem command_undrained_stuck (s : CmdState) (steps : List CmdStep) (hgone : s.consumer = .gone)
+    (hopen : s.closed = false) (hmany : s.cap < s.toProduce + s.buf) (hbuf : s.buf ≤ s.cap) :
+    (s.run steps).closed = false ∧ 0 < (s.run steps).toProduce :=
+  cmd_stuck_run s steps hgone hopen hmany hbuf
+
+/-- ... and such a state is reached as soon as one write fails early in a command with more than
+capacity + 1 responses (8 slots, 10 responses, the first write fails). -/
+theorem command_undrained_stuck_witness :
+    let s := (CmdState.init 8 10 false).run [.push, .recv true]
+    s.consumer = .gone ∧ ∀ steps, (s.run steps).closed = false ∧ 0 < (s.run steps).toProduce := by
+  intro s
+  refine ⟨by decide, fun steps => ?_⟩
+  exact cmd_stuck_run s steps (by decide) (by decide) (by decide) (by decide)
+
+/-- IDLE leaves no goroutine behind, however it ends. Regenerated facts: `State.Idle` is
+`beginIdle; if err return; defer endIdle(); fn(.., idleCh)` with no other `endIdle`; `endIdle` closes
+`idleCh`; every branch of the forwarder goroutine (started by the first statement of the callback) ends
+when its channel is closed. Model: for every interleaving and every result of the callback (nil after
+DONE, an error after a malformed line / a cancelled context / a failed write): once `Idle` has returned,
+the forwarder is at most one own step from its exit. -/
+theorem idle_forwarder_exits :
+    Facts.idleEndDeferred = some true ∧ Facts.endIdleClosesCh = some true ∧
+    Facts.idleForwarderStopsOnClose = some true ∧
+    ∀ steps : List IdleStep,
+      let s := (IdleState.init true).run steps
+      s.returned = true → (s.run [.fwdPoll]).fwd = .exited ∨ s.fwd = .exited := by
+  refine ⟨by decide, by decide, by decide, ?_⟩
+  intro steps s hret
+  obtain ⟨_, h⟩ := idle_deferred_inv steps
+  obtain ⟨hcl, hns⟩ := h hret
+  cases hf : s.fwd with
+  | notStarted => exact absurd hf hns
+  | exited => exact Or.inr rfl
+  | running =>
+    left
+    have hcl' : s.chClosed = true := hcl
+    simp [IdleState.run, IdleState.step, hf, hcl']
+
+/-- Why the `defer` is needed: with `endIdle()` only behind the error check, an IDLE that ends with an
+error (malformed line) leaves its forwarder running for ever - past the session, `RemoveUser` and
+`Server.Close`. -/
+theorem idle_not_deferred_leak_witness :
+    let s := (IdleState.init false).run [.start, .fnReturn true]
+    s.returned = true ∧ ∀ steps, (s.run steps).fwd = .running := by
+  intro s
+  refine ⟨by decide, fun steps => ?_⟩
+  have hfix : ∀ st, s.step st = s := by
+    intro st
+    cases st with
+    | start => decide
+    | fwdPoll => decide
+    | fnReturn err => cases err <;> decide
+  rw [idle_fixed_run s steps hfix]
+  decide
+
+/-- The goroutine starts of internal/session and internal/state are exactly the four the models and the
+teardown model speak about (forwarder, command goroutine, drainer, command reader): a new `go` /
+`async.Go*` / `WaitGroup.Go` there, or a lost one, breaks this theorem until it has a stop obligation.
+The command reader stops (serve defers `cancel()`, the reader's hand-over selects on `ctx.Done()`,
+`Session.done` closes the connection) and `Session.Serve` defers `done` and `handleWG.Wait()`. -/
+theorem session_goroutines_classified :
+    Facts.unknownSpawns = [] ∧ Facts.missingSpawns = [] ∧ Facts.sessionSpawns.length = 4 ∧
+    Facts.readerStops = some true ∧ Facts.serveDefersDoneAndWait = some true := by
+  decide
+
 /-! ## non-vacuity -/
 
 /-- a run that exercises the queue: two racing producers, a reader, CloseAndDiscardQueued -/
@@ -412,5 +511,17 @@ example : Facts.lockTab.fns.length > 100 ∧
 example :
     let s := (TState.init 3 true true true false).run [.login 0, .login 1, .leave 1, .beginClose, .closeQuit]
     closing s.closer = true ∧ s.wg = 2 ∧ s.sess = [.running, .relRead, .preauth] := by decide
+
+/-- a FETCH of 20 responses through 8 slots whose 3rd write fails: drained, the command goroutine finishes -/
+example :
+    let s := (CmdState.init 8 20 true).run
+      ([.push, .push, .push, .recv false, .recv false, .recv true] ++
+        (List.replicate 20 [CmdStep.push, .recv false]).flatten ++ [.close, .recv false])
+    s.closed = true ∧ s.consumer = .finished ∧ s.toProduce = 0 ∧ s.buf = 0 := by decide +kernel
+
+/-- the IDLE model takes both exits: DONE (nil) and a malformed line (error), forwarder gone in both -/
+example : ((IdleState.init true).run [.start, .fnReturn false, .fwdPoll]).fwd = .exited ∧
+    ((IdleState.init true).run [.start, .fnReturn true, .fwdPoll]).fwd = .exited ∧
+    ((IdleState.init false).run [.start, .fnReturn false, .fwdPoll]).fwd = .exited := by decide
 
 end Gluon.C19
